@@ -562,8 +562,39 @@ fn potentials(abs: &Abs, pat: usize) -> Abs {
     a
 }
 
+/// Array-based single-source minimum walk weights (in-place relaxation rounds with early exit,
+/// i128): the reference for the large weighted cases, which have no negative circuit by
+/// construction. O(rounds × arcs); the set-based `Abs::dist` is too slow beyond order ~100.
+fn fast_dist(n: usize, arcs: &[(usize, usize, i128)], s: usize) -> Vec<Option<i128>> {
+    let mut d: Vec<Option<i128>> = vec![None; n];
+    d[s] = Some(0);
+    for _ in 0..=n {
+        let mut changed = false;
+        for &(u, v, w) in arcs {
+            if let Some(du) = d[u] {
+                let c = du + w;
+                if d[v].map_or(true, |x| c < x) {
+                    d[v] = Some(c);
+                    changed = true;
+                }
+            }
+        }
+        if !changed {
+            break;
+        }
+    }
+    d
+}
+
 pub fn c07_c08_big(which: &'static str, thorough: bool) -> Space {
-    let ords: Vec<usize> = if thorough { vec![12, 17, 32, 33, 34, 64, 65, 66] } else { vec![12, 33, 34, 65] };
+    // BellmanFordMoore also at orders beyond 255 (a round counter in a narrow type); FloydWarshall
+    // up to 130 (257 thorough)
+    let ords: Vec<usize> = match (which == "bfm", thorough) {
+        (true, false) => vec![12, 33, 34, 65, 257],
+        (true, true) => vec![12, 17, 32, 33, 34, 64, 65, 66, 257, 300],
+        (false, false) => vec![12, 33, 34, 65, 130],
+        (false, true) => vec![12, 17, 32, 33, 34, 64, 65, 66, 130, 257],
+    };
     let mut cs = Vec::new();
     for &n in &ords {
         for f in 0..big_shapes(n).len() {
@@ -578,11 +609,12 @@ pub fn c07_c08_big(which: &'static str, thorough: bool) -> Space {
         let abs = potentials(&shape, pat);
         let d = mk::<WI>(&abs);
         let det = |s: usize| json!({"order": n, "shape": name, "weight_pattern": pat, "source": s});
+        let warcs: Vec<(usize, usize, i128)> = abs.a.iter().map(|&(u, v)| (u, v, abs.weight(u, v))).collect();
         if which == "bfm" {
             for s in interesting(n) {
                 ctx.exec();
-                let dist = abs.dist(&BTreeSet::from([s]));
-                let want: Vec<isize> = (0..n).map(|v| dist.get(&v).map_or(isize::MAX, |&x| x as isize)).collect();
+                let dist = fast_dist(n, &warcs, s);
+                let want: Vec<isize> = (0..n).map(|v| dist[v].map_or(isize::MAX, |x| x as isize)).collect();
                 match guarded(|| BellmanFordMoore::new(&d, s).distances().map(<[isize]>::to_vec)) {
                     Err(e) => ctx.fail(format!("BellmanFordMoore panicked: {e}"), det(s)),
                     Ok(None) => ctx.fail("BellmanFordMoore::distances() returned None on a digraph without negative circuit", det(s)),
@@ -608,9 +640,9 @@ pub fn c07_c08_big(which: &'static str, thorough: bool) -> Space {
                         return;
                     }
                     for s in 0..n {
-                        let dist = abs.dist(&BTreeSet::from([s]));
+                        let dist = fast_dist(n, &warcs, s);
                         for v in 0..n {
-                            let w = dist.get(&v).map_or(isize::MAX, |&x| x as isize);
+                            let w = dist[v].map_or(isize::MAX, |x| x as isize);
                             if flat[s * n + v] != w {
                                 ctx.fail(format!("FloydWarshall::distances()[({s}, {v})] = {}, minimum walk weight is {w}", flat[s * n + v]), det(s));
                                 return;
